@@ -57,6 +57,9 @@ def call_value(m: Any, func: V, args: list[V], kwargs: dict[str, V], node: ast.C
                 ret_sort, may_raise = ext
                 if may_raise and not m.spec and m.ctx.branch(z3.Bool(fresh_name("extern_raises"))):
                     raise _RS(VExc(may_raise))
+                fn_model = getattr(m.world, "extern_fns", {}).get((func.obj[1], func.obj[2]))
+                if fn_model is not None:
+                    return fn_model(m, args, kwargs)       # a deterministic (uninterpreted) function of the arguments
                 return NONE if ret_sort is None else m.fresh_of(ret_sort, func.obj[2])
             raise EngineError(f"call of {func.obj[1]}.{func.obj[2]} not modelled")
     if isinstance(func, VBound):
